@@ -34,6 +34,12 @@ NEEDS = {
  "C05b": "one canonical k-mer with at least 65536 observations (count wraps instead of saturating)",
  "C08b": "a read of exactly k bases",
  "C07b": "k == p (underflow in the first window)",
+ "C03c": "a censored node that links to itself (circular / tandem-repeat node or hairpin): its self-extension survives fix_exts(Some(..))",
+ "C06b": "stranded = true, even k, a path through a k-mer equal to its own reverse complement",
+ "C09b": "compress_graph merging to the right over nodes whose payload differs from the seed's",
+ "C13c": "a reverse-complemented slice with start != 0 (get_kmer / first_kmer / last_kmer / iter_kmers)",
+ "C14c": "overwriting an old C or T with A or G through set_mut",
+ "C16c": "lower-case c or g through from_dna_only_string",
 }
 def detection(sid):
     out = []
